@@ -1116,4 +1116,26 @@ theorem none_decision_run_witness :
   exact ⟨not_noNoneDec_NN, by decide, by decide, by decide, h2.1, h2.2.1, h2.2.2.2.2.2.2.1,
     h2.2.2.2.2.2.2.2.1⟩
 
+/-! ## the signed message determines key AND payload -/
+
+/-- after the repair the signed message is injective in the PAIR (key, payload): a MAC that is collision-free
+on messages is then collision-free on pairs, which is what the hypothesis `Unforgeable` (stated over pairs
+`(key, b)`) asks of it -/
+theorem macMsg_injective {k k' b b' : List Nat} (h : macMsg k b = macMsg k' b') : k = k' ∧ b = b' := by
+  unfold macMsg at h
+  have hlen : k.length = k'.length := (List.cons.inj h).1
+  have happ : k ++ b = k' ++ b' := (List.cons.inj h).2
+  exact List.append_inj happ hlen
+
+/-- before the repair it was not: the entry signed for key `"k1"` (bytes 107, 49) with payload `P` has the
+very message of key `"k"` (107) with payload `49 :: P` — a correctly signed entry could be replayed under
+another key with a shifted payload, and bytes never signed as a payload for that key reached `pickle.loads` -/
+theorem replay_under_other_key_witness (P : List Nat) :
+    macMsgConcat [107, 49] P = macMsgConcat [107] (49 :: P) ∧ ([107, 49], P) ≠ ([107], 49 :: P) ∧
+    macMsg [107, 49] P ≠ macMsg [107] (49 :: P) := by
+  refine ⟨rfl, by simp, ?_⟩
+  intro h
+  have := (macMsg_injective h).1
+  simp at this
+
 end HG.C09
